@@ -712,6 +712,22 @@ Section UnfuseGeneric.
       rewrite block_shape_app' by exact Hss. reflexivity.
   Qed.
 
+  Lemma GUB_data K' T' : In (K', T') GUB -> length (tdata T') = shape_size (tshape T').
+  Proof.
+    intros Hin. apply GUB_In in Hin. destruct Hin as (K & T & e & [ss [st len]] & HinY & He & Hq & Heq).
+    destruct (Y_block K T HinY) as (Hax & HK & HlL & HlR & Hsh).
+    destruct (Hext_sz _ e ss st len He Hq) as [Hsz _].
+    inversion Heq as [[HK' HT']]. cbn [fst snd treshape tdata tshape].
+    unfold tslice. rewrite length_tdata_build, Hsh.
+    assert (HbsL : length (block_shape G (firstn ax IX) (firstn ax K)) = ax).
+    { rewrite length_block_shape_min; [rewrite firstn_length; lia|rewrite HlL, firstn_length; lia]. }
+    rewrite (set_nth_middle _ _ _ len ax HbsL), (replace_with_seq_middle _ _ _ _ ax HbsL).
+    rewrite !shape_size_app.
+    change (shape_size (len :: block_shape G (skipn (S ax) IX) (skipn (S ax) K)))
+      with (len * shape_size (block_shape G (skipn (S ax) IX) (skipn (S ax) K))).
+    now rewrite Hsz.
+  Qed.
+
   Lemma gunfuse_sem cL csub cR ch e st len :
     length cL = ax -> lookup (ceqb G) ch ext = Some e -> In (map fst csub, (st, len)) (ranges_from 0 e) ->
     (In (map fst cL ++ ch :: map fst cR) (sectors G R Y) -> coords_ok G GIX' (cL ++ csub ++ cR) = true) ->
